@@ -18,6 +18,7 @@ import (
 	"crypto/sha1"
 	"encoding/hex"
 	"encoding/json"
+	"flag"
 	"fmt"
 	"os"
 	"sort"
@@ -43,6 +44,7 @@ type rec struct {
 	Detail string         `json:"detail,omitempty"`
 	Keys   []keyed        `json:"keys,omitempty"`
 	Failing int64         `json:"failing,omitempty"`
+	Skipped int64         `json:"skipped,omitempty"`
 }
 
 type keyed struct {
@@ -60,10 +62,12 @@ type caseJSON struct {
 // ---- worker side ------------------------------------------------------------------------------
 
 type wstate struct {
+	deadline time.Time
+	skipped  int64
 	minimal [][]Op // 1-minimal failing histories found so far in this worker
 	nm      names
 	dir     string
-	memo    map[string]bool
+	memo    map[string][]string // history -> distinct violated relation labels
 	emitted map[string]bool
 	n       int64
 	byLen   []int64
@@ -75,21 +79,40 @@ type wstate struct {
 func newWState(w *pool.W) *wstate {
 	var seed int64
 	fmt.Sscan(os.Getenv("VERIF_C12_SEED"), &seed)
-	return &wstate{nm: pickNames(seed), dir: os.Getenv("VERIF_C12_DIR"), memo: map[string]bool{}, emitted: map[string]bool{}, cats: map[string]int{}, byLen: make([]int64, 16), w: w}
+	var dl int64
+	fmt.Sscan(os.Getenv("VERIF_C12_DEADLINE"), &dl)
+	return &wstate{deadline: time.Unix(dl, 0), nm: pickNames(seed), dir: os.Getenv("VERIF_C12_DIR"), memo: map[string][]string{}, emitted: map[string]bool{}, cats: map[string]int{}, byLen: make([]int64, 16), w: w}
 }
 
-func (s *wstate) fails(h []Op) bool {
+func labelsOf(f []failure) []string {
+	seen := map[string]bool{}
+	var r []string
+	for _, x := range f {
+		if !seen[x.Label] {
+			seen[x.Label] = true
+			r = append(r, x.Label)
+		}
+	}
+	return r
+}
+
+// fails reports whether h violates some relation outside ignore.
+func (s *wstate) fails(h []Op, ignore map[string]bool) bool {
 	k := histString(h)
-	if v, ok := s.memo[k]; ok {
-		return v
+	ls, ok := s.memo[k]
+	if !ok {
+		ls = labelsOf(execute(h, s.nm, s.dir, false).Fails)
+		if len(s.memo) > 400000 {
+			s.memo = map[string][]string{}
+		}
+		s.memo[k] = ls
 	}
-	r := execute(h, s.nm, s.dir, false)
-	v := len(r.Fails) > 0
-	if len(s.memo) > 400000 {
-		s.memo = map[string]bool{}
+	for _, l := range ls {
+		if !ignore[l] {
+			return true
+		}
 	}
-	s.memo[k] = v
-	return v
+	return false
 }
 
 // embeds reports whether r is obtained from h by dropping ops (then h fails because r does; r is
@@ -126,7 +149,7 @@ func embeds(h, r []Op) bool {
 }
 
 // reduce drops ops while some violation persists (1-minimal failing history).
-func (s *wstate) reduce(h []Op) []Op {
+func (s *wstate) reduce(h []Op, ignore map[string]bool) []Op {
 	for _, r := range s.minimal {
 		if embeds(h, r) {
 			return r
@@ -144,7 +167,7 @@ func (s *wstate) reduce(h []Op) []Op {
 			if !ok {
 				continue
 			}
-			if s.fails(cand) {
+			if s.fails(cand, ignore) {
 				cur = cand
 				changed = true
 				break
@@ -169,20 +192,51 @@ func modelOf(h []Op) *model {
 
 // one executes a history, reports a failure (reduced) and returns its dedup key.
 func (s *wstate) one(h []Op) string {
+	if time.Now().After(s.deadline) {
+		s.skipped++
+		return ""
+	}
 	s.n++
 	s.byLen[len(h)]++
 	r := execute(h, s.nm, s.dir, false)
 	for c, n := range r.Cats {
 		s.cats[c] += n
 	}
-	s.memo[histString(h)] = len(r.Fails) > 0
+	s.memo[histString(h)] = labelsOf(r.Fails)
 	if len(r.Fails) > 0 {
 		s.failing++
-		red := s.reduce(h)
+		// canary: if a fresh base + fresh temp already deviates, state survives *between* histories
+		// (process-global table): reduction would be meaningless, report that instead.
+		var ignore map[string]bool
+		if cf := nonAuto(execute(canary, s.nm, s.dir, false).Fails); len(cf) > 0 {
+			key := "process-global-state " + cf[0].Label
+			if !s.emitted[key] {
+				s.emitted[key] = true
+				s.w.Emit(rec{Kind: "fail", Key: key, Clause: cf[0].Label, Size: 0, Case: caseJSON{Ops: h, Text: histString(h) + " then, in the same process, " + histString(canary), Names: s.nm, Fails: capFails(cf)}, Detail: "definitions made in an earlier history are visible to brand-new VMs of the same process:\n" + detail(cf)})
+			}
+			// other relations violated by this history are still reduced and reported on their own;
+			// the contaminated ones (leak-like relations of any kind) are ignored from here on.
+			ignore = map[string]bool{}
+			for _, rel := range []string{"leak-to-base", "leak-to-temp", "leak-from-discarded", "foreign-definition"} {
+				for _, kd := range []string{"class", "interface", "function", "class|interface"} {
+					ignore[rel+":"+kd] = true
+				}
+			}
+			s.memo = map[string][]string{histString(h): labelsOf(r.Fails)}
+			if !s.fails(h, ignore) {
+				return stateKey(modelOf(h).canon(), r.Obs)
+			}
+		}
+		red := s.reduce(h, ignore)
 		rr := execute(red, s.nm, s.dir, false)
+		rr.Fails = without(rr.Fails, ignore)
 		if len(rr.Fails) == 0 {
 			// not reproducible after reduction: report the unreduced history as it is
 			red, rr = h, r
+			rr.Fails = without(rr.Fails, ignore)
+			if len(rr.Fails) == 0 {
+				return stateKey(modelOf(h).canon(), r.Obs)
+			}
 		}
 		key := findingKey(red, rr.Fails)
 		if !s.emitted[key] {
@@ -192,6 +246,31 @@ func (s *wstate) one(h []Op) string {
 		}
 	}
 	return stateKey(modelOf(h).canon(), r.Obs)
+}
+
+var canary = []Op{{K: opNewTemp}}
+
+func nonAuto(f []failure) []failure {
+	var r []failure
+	for _, x := range f {
+		if x.Name != "F" {
+			r = append(r, x)
+		}
+	}
+	return r
+}
+
+func without(f []failure, ignore map[string]bool) []failure {
+	if ignore == nil {
+		return f
+	}
+	var r []failure
+	for _, x := range f {
+		if !ignore[x.Label] {
+			r = append(r, x)
+		}
+	}
+	return r
 }
 
 func capFails(f []failure) []failure {
@@ -229,7 +308,8 @@ func trunc(s string, n int) string {
 }
 
 func (s *wstate) flush(keys map[string][]Op) {
-	r := rec{Kind: "count", N: s.n, ByLen: s.byLen, Cats: s.cats, Failing: s.failing}
+	r := rec{Kind: "count", N: s.n, ByLen: s.byLen, Cats: s.cats, Failing: s.failing, Skipped: s.skipped}
+	s.skipped = 0
 	s.w.Emit(r)
 	if keys != nil {
 		ks := make([]keyed, 0, len(keys))
@@ -277,6 +357,9 @@ func dfsWorker(w *pool.W, arg json.RawMessage) {
 	json.Unmarshal(arg, &sh)
 	keys := map[string][]Op{}
 	note := func(h []Op, k string) {
+		if k == "" {
+			return
+		}
 		if old, ok := keys[k]; !ok || histLess(h, old) {
 			keys[k] = append([]Op(nil), h...)
 		}
@@ -327,7 +410,7 @@ func bfsWorker(w *pool.W, arg json.RawMessage) {
 				continue
 			}
 			k := ws.one(h)
-			if k == rp.K {
+			if k == rp.K || k == "" {
 				continue
 			}
 			if old, ok := keys[k]; !ok || histLess(h, old) {
@@ -344,6 +427,7 @@ func main() {
 	if pool.IsWorker() {
 		pool.Serve(map[string]pool.Handler{"dfs": dfsWorker, "bfs": bfsWorker})
 	}
+	started := time.Now()
 	c := ev.New("C12")
 	defer runner.Cleanup()
 	nm := pickNames(c.Seed)
@@ -372,14 +456,24 @@ func main() {
 		fullLen, maxLen = 5, 7
 	}
 	c.SetBudget(4*time.Minute, 30*time.Minute)
+	budget := 4 * time.Minute
+	if !c.Quick() {
+		budget = 30 * time.Minute
+	}
+	if f := flag.Lookup("budget"); f != nil {
+		if d, err := time.ParseDuration(f.Value.String()); err == nil && d > 0 {
+			budget = d
+		}
+	}
+	deadline := started.Add(budget)
 	if pre := preflight(nm, dir); pre != "" {
 		c.HarnessError("%s", pre)
 		os.RemoveAll(dir)
 		c.Finish(0, 0, 0, "preflight")
 	}
-	opts := pool.Options{Env: []string{"VERIF_C12_DIR=" + dir, fmt.Sprintf("VERIF_C12_SEED=%d", c.Seed)}}
+	opts := pool.Options{Env: []string{"VERIF_C12_DIR=" + dir, fmt.Sprintf("VERIF_C12_SEED=%d", c.Seed), fmt.Sprintf("VERIF_C12_DEADLINE=%d", deadline.Unix())}}
 
-	var total, failing int64
+	var total, failing, skipped int64
 	byLen := make([]int64, 16)
 	cats := map[string]int{}
 	best := map[string][]Op{} // dedup key -> least history reaching it
@@ -390,6 +484,7 @@ func main() {
 		case "count":
 			total += r.N
 			failing += r.Failing
+			skipped += r.Skipped
 			for i, n := range r.ByLen {
 				byLen[i] += n
 			}
@@ -435,11 +530,14 @@ func main() {
 	var expTotal int64
 	for l, n := range expected {
 		expTotal += n
-		if byLen[l] != n {
+		if byLen[l] != n && skipped == 0 {
 			c.HarnessError("length %d: executed %d histories, model enumerates %d", l, byLen[l], n)
 		}
 	}
 	fullTotal := total
+	if skipped > 0 {
+		c.NotExhaustive(fmt.Sprintf("budget expired during the full enumeration: %d of %d histories of length <= %d executed", total, expTotal, fullLen))
+	}
 	distinctFull := len(best)
 	completed := fullLen
 
@@ -453,8 +551,10 @@ func main() {
 		}
 	}
 	for depth := fullLen + 1; depth <= maxLen; depth++ {
-		if c.Expired() {
-			c.NotExhaustive(fmt.Sprintf("budget expired; completed depth %d", completed))
+		if c.Expired() || skipped > 0 {
+			if skipped == 0 {
+				c.NotExhaustive(fmt.Sprintf("budget expired; completed depth %d", completed))
+			}
 			break
 		}
 		sort.Slice(frontier, func(i, j int) bool { return histLess(frontier[i].H, frontier[j].H) })
@@ -478,6 +578,10 @@ func main() {
 			}
 		}
 		levelInfo = append(levelInfo, fmt.Sprintf("depth %d: %d representative states expanded, %d executions, %d new states", depth, len(frontier), total-before, len(best)-known))
+		if skipped > 0 {
+			c.NotExhaustive(fmt.Sprintf("budget expired inside merged depth %d; completed depth %d", depth, completed))
+			break
+		}
 		frontier = next
 		completed = depth
 		if len(frontier) == 0 {
@@ -571,6 +675,18 @@ func replay(c *ev.Check, dir string) {
 	h, ok := normalise(cs.Ops, maxTemps)
 	if !ok {
 		c.HarnessError("replay: history is not executable: %s", histString(cs.Ops))
+		return
+	}
+	if strings.HasPrefix(key, "process-global-state") {
+		execute(h, nm, dir, false)
+		cf := nonAuto(execute(canary, nm, dir, false).Fails)
+		fmt.Println("history:", histString(h), "then, in the same process,", histString(canary))
+		if len(cf) > 0 {
+			fmt.Print(detail(cf))
+			c.Fail(key, cf[0].Label, 0, cs, detail(cf))
+		} else {
+			fmt.Println("no violation")
+		}
 		return
 	}
 	r := execute(h, nm, dir, true)
